@@ -41,7 +41,7 @@ _SM_RULE = ("state = byte image of security manager object + connection data + I
 _SM_BOUND = ("per security manager variant x IO configuration (10 units quick, 22 thorough): quick = all event sequences up to depth 8 (from the fresh state and from the scripted start states) de-duplicated on the state image; "
              "thorough = full reachable state space (fixpoint). Alphabet: every SMP opcode 0x00..0x0f + empty PDU; request/confirm/random/public key/DHKey check each as "
              "{correct value, wrong values (garbage; first / middle / last / all-but-last octet wrong for Mconfirm and Ea; confirm values for passkey mod 65536 and passkey with changed upper half), length-1, length+1, invalid parameter (io 5, oob 2, key size 6/17, key distribution 0xf0)}; user yes/no at any time; output poll; "
-             "encryption on (pairing key / bond key) and off; find_key probes for 24 EDIV/Rand pairs (zero, single bits in every 16 bit lane incl. bit 32 and 63, the bonded pairs and their one-bit neighbours) after every step; bond DB (earlier entry + bond made on this connection) preloaded {empty, this peer, other peer, LESC bond under ediv=rand=0 with a recognisable key}; scripted prefixes as additional start states (aborted / declined numeric comparison whose Ea was already verified, completed legacy pairing, completed LESC pairing)")
+             "encryption on (pairing key / bond key) and off; find_key probes for 24 EDIV/Rand pairs (zero, single bits in every 16 bit lane incl. bit 32 and 63, the bonded pairs and their one-bit neighbours) after every step; bond DB (earlier entry + bond made on this connection) preloaded {empty, this peer, other peer, LESC bond under ediv=rand=0 with a recognisable key}; scripted prefixes as additional start states (aborted / declined numeric comparison whose Ea was already verified, completed legacy just works / passkey pairing, completed LESC just works / numeric comparison pairing)")
 _SM_ASSUME = [
     "toolbox is a fake: 'cryptographically correct' means equal to the tagged hash of the same inputs; srand, nonce, passkey, key pair are constants (1-2 patterns per value kind)",
     "user answers are asynchronous (the scripted application stores the pairing_yes_no_response and answers in a later event); synchronous answers are covered by /repo/tests",
